@@ -160,8 +160,8 @@ func (r *c24Rig) join(n string) error {
 	if existing != nil {
 		existing.disconnect()
 	}
-	jg := &packet.JoinGame{EntityID: 7, Gamemode: 0, Dimension: 0, LevelType: strPtr("default"), MaxPlayers: 20}
-	if err := r.play.handleBackendJoinGame(&proto.PacketContext{Direction: proto.ClientBound, Protocol: r.client.protocol, Packet: jg}, jg, dest); err != nil {
+	jg := c24JoinGame()
+	if err := r.play.handleBackendJoinGame(c24JoinCtx(r, jg), jg, dest); err != nil {
 		return err
 	}
 	r.player.setConnectedServer(dest)
@@ -169,6 +169,13 @@ func (r *c24Rig) join(n string) error {
 }
 
 func strPtr(s string) *string { return &s }
+
+func c24JoinGame() *packet.JoinGame {
+	return &packet.JoinGame{EntityID: 7, Gamemode: 0, Dimension: 0, LevelType: strPtr("default"), MaxPlayers: 20}
+}
+func c24JoinCtx(r *c24Rig, jg *packet.JoinGame) *proto.PacketContext {
+	return &proto.PacketContext{Direction: proto.ClientBound, Protocol: r.client.protocol, Packet: jg}
+}
 
 func (r *c24Rig) queueLen() (n, bytes int) {
 	if r.mode == "config" {
